@@ -472,6 +472,12 @@ def r5_buffered_events_not_for_new_sessions(ctx):
     C05.r2_late_joiners(ctx)
 
 
+def r20_unconditional_mutators(ctx):
+    """Mutators this property relies on always perform their effect (shared table in rules/mutators.py)."""
+    import rules.mutators as mutators
+    mutators.run_for(ctx, "C09")
+
+
 RULES = [
     ("C09.R1", "client: everything the session writes is classified and reset state is cleared on the status edge", r1_client, 12, ["default", "all-features", "client-only"]),
     ("C09.R1b", "clear() of every session-state type touches every field", r1b_clear_complete, 3, None),
@@ -479,6 +485,7 @@ RULES = [
     ("C09.R3", "status changes purge the message queues; queues are closed outside a session", r3_purge, 10, None),
     ("C09.R4", "reset systems run on the right status edges and before the next receive", r4_scheduling, 8, ["default", "all-features"]),
     ("C09.R5", "events buffered before a (re)connect never reach the new session (same rule as C05.R2)", r5_buffered_events_not_for_new_sessions, 6, ["default", "all-features", "server-only"]),
+    ("C09.R20", "mutators this property relies on always perform their effect (rules/mutators.py): no early return, no guard outside the allowed set", r20_unconditional_mutators, 4, ["default", "all-features"]),
 ]
 THOROUGH_CONFIGS = ["default", "all-features", "server-only", "client-only"]
 
